@@ -1,6 +1,10 @@
 import Apko.Model.Confine
 import Apko.Generated.Confine
 import Apko.Proofs.Lemmas.ConfinePath
+import Apko.Proofs.Lemmas.ConfineEtag
+import Apko.Proofs.Lemmas.ConfineKeys
+import Apko.Proofs.Lemmas.ConfinePkgDir
+import Apko.Generated.Cache
 /-!
 # C18 — nothing is written outside the designated roots
 
@@ -11,7 +15,11 @@ import Apko.Proofs.Lemmas.ConfinePath
   tied to the regenerated call lists).
 * `dirfs_physical` (full statement, **false**: F18c) with `not_dirfs_physical` (witness) and
   `dirfs_physical_partial` (no symlinks below the root ⇒ the kernel ends up inside the root).
-* `cache_path_within_root`, `etag_alphabet`, `etag_file_within_dir`, `keyfile_basename`, `keyname_no_slash`.
+* `cache_path_shape` / `cache_path_within_root_proved` / `cache_path_under_repo`, `etag_alphabet`, `etag_file_within_dir`,
+  `cache_dir_within_root`, `cache_writes_within_root` (+ `cache_writes_defined`), `pkg_cache_dir_within_root`.
+* `keyfile_basename` (`InitKeyring`), `keyfile_within_keys_dir` (full statement, **false**: `%2F` in an Alpine key URL,
+  `/` in a JWKS key id) with `not_keyfile_within_keys_dir`, `keyfile_within_keys_dir_partial`, `keyfile_host_confined`;
+  `keyname_no_slash`.
 -/
 namespace Apko.C18
 open Apko Apko.Path Apko.Confine
@@ -372,8 +380,8 @@ theorem base_no_slash (e : Text) : '/' ∉ base e ∨ base e = slash := by
 theorem keyname_no_slash (k : Text) : keyNameOK k = true ↔ '/' ∉ k := by
   simp [keyNameOK]
 
-/-- **Stated, not proved** (exercised by the suite: the driver evaluates the component-level oracle on every
-result): for every URL path and every safe escape of the repository part, the cache file lies strictly below the root. -/
+/-- For every URL path and every safe escape of the repository part, the cache file lies strictly below the root
+(proved below: `cache_path_within_root_proved`; the driver also evaluates the component-level oracle on every result). -/
 def cache_path_within_root : Prop :=
   ∀ (root path esc v : Text), isAbs root = true → EscSafe esc → cachePathFromURL root path esc = some v →
     Within root v ∧ v ≠ clean root
@@ -384,6 +392,363 @@ theorem cache_path_rejects_root :
 
 example : cachePathFromURL (T "/t/cache") (T "/os/x86_64/p.apk") (T "https%3A%2F%2Frepo.test%2Fos")
     = some (T "/t/cache/https%3A%2F%2Frepo.test%2Fos/x86_64/p.apk") := by decide
+
+
+/-! ## cache naming: `cachePathFromURL`, the etag names, what the transport writes -/
+
+/-- strictly below the root: confined, and at least one component follows the root's -/
+def StrictlyBelow (root v : Text) : Prop :=
+  Within root v ∧ ∃ rest, rest ≠ [] ∧ parts v = parts (clean root) ++ rest
+
+theorem parts_clean_root {root : Text} (hr : isAbs root = true) : parts (clean root) = (stk [] root).reverse := by
+  obtain ⟨h, hn⟩ := clean_root_eq hr
+  rw [h, parts_absOf (NL_reverse hn)]
+
+theorem within_absOf {root : Text} {rest : List Name} (hn : NL (parts (clean root) ++ rest)) :
+    Within root (absOf (parts (clean root) ++ rest)) := by
+  rw [Within, parts_absOf hn]
+  exact ⟨List.prefix_append _ _, fun c hc => ⟨(hn c hc).1.2.2, (hn c hc).1.2.1⟩⟩
+
+theorem strictlyBelow_absOf {root : Text} {rest : List Name} (hn : NL (parts (clean root) ++ rest)) (hne : rest ≠ []) :
+    StrictlyBelow root (absOf (parts (clean root) ++ rest)) :=
+  ⟨within_absOf hn, rest, hne, parts_absOf hn⟩
+
+/-- **the exact shape of an accepted cache path.**  `Clean(Join(root, esc, Base(Dir(path)), Base(path)))` is the
+cleaned root followed by: `esc`, then the architecture directory (dropped when it is `/` or `.`), then the file
+name (dropped when it is `/` or `.`); a file name `..` removes the element before it (never `esc` and the
+directory both: the outcomes "root" and "parent of the root" are rejected by the test); only a *directory* `..`
+— possible for relative URL paths only, see `cache_path_under_repo` — removes `esc`. -/
+theorem cache_path_shape {root path esc v : Text} (hr : isAbs root = true) (he : EscSafe esc)
+    (h : cachePathFromURL root path esc = some v) :
+    ∃ rest, v = absOf (parts (clean root) ++ rest) ∧ NL (parts (clean root) ++ rest) ∧
+      (rest = [esc] ∨ rest = [esc, base path] ∨ rest = [esc, base (dir path)]
+        ∨ rest = [esc, base (dir path), base path] ∨ (base (dir path) = dotdot ∧ rest = [base path])) := by
+  obtain ⟨hv, hne, hp⟩ := cachePathFromURL_some hr he h
+  subst hv
+  obtain ⟨top, hS, hc⟩ := cacheStack_shape hr hne hp
+  have hnl := NL_reverse (cacheFile_eq (path := path) hr he).2
+  rw [parts_clean_root hr]
+  rw [hS] at hnl ⊢
+  rw [List.reverse_append] at hnl ⊢
+  refine ⟨top.reverse, rfl, hnl, ?_⟩
+  rcases hc with e | e | e | e | ⟨e1, e⟩
+  · subst e; exact Or.inl rfl
+  · subst e; exact Or.inr (Or.inl rfl)
+  · subst e; exact Or.inr (Or.inr (Or.inl rfl))
+  · subst e; exact Or.inr (Or.inr (Or.inr (Or.inl rfl)))
+  · subst e; exact Or.inr (Or.inr (Or.inr (Or.inr ⟨e1, rfl⟩)))
+
+theorem cache_path_strictly_below {root path esc v : Text} (hr : isAbs root = true) (he : EscSafe esc)
+    (h : cachePathFromURL root path esc = some v) : StrictlyBelow root v := by
+  obtain ⟨rest, hv, hn, hc⟩ := cache_path_shape hr he h
+  subst hv
+  refine strictlyBelow_absOf hn ?_
+  rcases hc with e | e | e | e | ⟨_, e⟩ <;> simp [e]
+
+/-- **cache_path_within_root**: for every absolute root, every URL path and every safe escape of the repository
+part, an accepted cache path lies component-wise below the root and is not the root -/
+theorem cache_path_within_root_proved : cache_path_within_root := by
+  intro root path esc v hr he h
+  exact ⟨(cache_path_strictly_below hr he h).1, (cachePathFromURL_some hr he h).2.1⟩
+
+/-- for the paths `net/url` produces for a URL with a host (empty or starting with `/`) the cache file lies
+below `root/esc`: different repositories never share files -/
+theorem cache_path_under_repo {root path esc v : Text} (hr : isAbs root = true) (he : EscSafe esc)
+    (hpath : path = [] ∨ isAbs path = true) (h : cachePathFromURL root path esc = some v) :
+    parts (clean root) ++ [esc] <+: parts v := by
+  obtain ⟨rest, hv, hn, hc⟩ := cache_path_shape hr he h
+  subst hv
+  rw [parts_absOf hn]
+  rcases hc with e | e | e | e | ⟨e1, _⟩
+  · rw [e]; exact List.prefix_refl _
+  · rw [e]; exact ⟨[base path], by simp⟩
+  · rw [e]; exact ⟨[base (dir path)], by simp⟩
+  · rw [e]; exact ⟨[base (dir path), base path], by simp⟩
+  · exact absurd e1 (base_dir_ne_dotdot hpath)
+
+/-- the hypothesis on the path is needed: a relative path with the directory `..` lands beside `esc` (still
+strictly below the root) -/
+example : cachePathFromURL (T "/t/cache") (T "../p.apk") (T "https%3A%2F%2Frepo.test")
+    = some (T "/t/cache/p.apk") := by decide
+
+/-- **etag_file_within_dir**: for EVERY `ETag` header value the server sends, `cacheFileFromEtag` succeeds and
+names one file directly inside `cacheDirFromFile cacheFile` (one more component, `base32(etag) ++ ext`) -/
+theorem etag_file_within_dir (hdr : Option (List Text)) (e cf : Text) (hcf : isAbs cf = true)
+    (h : etagFromResponse hdr = some e) :
+    ∃ p, cacheFileFromEtag cf e = some p
+      ∧ parts p = parts (cacheDirFromFile cf) ++ [e ++ etagExt cf]
+      ∧ dir p = cacheDirFromFile cf
+      ∧ Within (cacheDirFromFile cf) p := by
+  obtain ⟨hne, _⟩ := etag_alphabet hdr e h
+  obtain ⟨hs, hd⟩ := etag_no_slash_no_dot hdr e h
+  obtain ⟨D, hnl, hdir, hp⟩ := cacheFileFromEtag_normal hcf hne hs hd
+  have hD : NL D := fun x hx => hnl x (by simp [hx])
+  refine ⟨_, hp, ?_, ?_, ?_⟩
+  · rw [hdir, parts_absOf hnl, parts_absOf hD]
+  · rw [hdir, dir_absOf hnl, List.dropLast_concat]
+  · rw [Within, hdir, clean_absOf hD, parts_absOf hnl, parts_absOf hD]
+    exact ⟨List.prefix_append _ _, fun c hc => ⟨(hnl c hc).1.2.2, (hnl c hc).1.2.1⟩⟩
+
+/-- the etag directory of a cache file that lies strictly below the root lies (not necessarily strictly: a
+cache file directly in the root has the root as directory) below the root -/
+theorem cache_dir_within_root {root cf : Text} (hcf : isAbs cf = true)
+    (hclean : clean cf = cf) (hb : StrictlyBelow root cf) :
+    Within root (cacheDirFromFile cf) ∧ Within root (dir cf) := by
+  obtain ⟨C, hC, hcC, -⟩ := clean_abs_normal hcf
+  rw [hclean] at hcC
+  obtain ⟨_, rest, hrest, hparts⟩ := hb
+  rw [hcC, parts_absOf hC] at hparts
+  obtain ⟨D0, D, hD0, hD, hdir, hcd, hDD⟩ := cacheDirFromFile_normal hcf
+  have e0 : D0 = parts (clean root) ++ rest.dropLast := by
+    have := dir_absOf hC
+    rw [← hcC, hdir] at this
+    rw [absOf_inj hD0 (NL_dropLast hC) this, hparts, List.dropLast_append_of_ne_nil hrest]
+  have w0 : ∀ {D : List Name}, NL D → parts (clean root) <+: D → Within root (absOf D) := by
+    intro D hD hp
+    rw [Within, parts_absOf hD]
+    exact ⟨hp, fun c hc => ⟨(hD c hc).1.2.2, (hD c hc).1.2.1⟩⟩
+  have p0 : parts (clean root) <+: D0 := by rw [e0]; exact List.prefix_append _ _
+  refine ⟨?_, ?_⟩
+  · rw [hcd]
+    refine w0 hD ?_
+    rcases hDD with e | e
+    · rw [e]; exact p0
+    · rw [e]; exact List.IsPrefix.trans p0 (List.prefix_append _ _)
+  · rw [hdir]; exact w0 hD0 p0
+
+/-- **cache_writes_within_root**: for every URL (path, safe escape), every `ETag` header of the response and
+every random string `os.CreateTemp` draws, the directory the transport creates lies within the cache root, and
+the temporary file and the advertised etag file lie strictly below it, directly inside that directory -/
+theorem cache_writes_within_root {root path esc rnd : Text} {hdr : Option (List Text)} {ws : List Text}
+    (hr : isAbs root = true) (he : EscSafe esc) (hrnd : '/' ∉ rnd)
+    (h : cacheTransportWrites root path esc hdr rnd = some ws) :
+    ∃ d t f, ws = [d, t, f] ∧ Within root d ∧ StrictlyBelow root t ∧ StrictlyBelow root f
+      ∧ dir t = d ∧ dir f = d := by
+  unfold cacheTransportWrites at h
+  split at h
+  · cases h
+  · next cf hcf =>
+    split at h
+    · cases h
+    · next e hetag =>
+      split at h
+      · cases h
+      · next ef hef =>
+        injection h with h
+        -- the cache file, in normal form
+        obtain ⟨rest, hv, hn, hc⟩ := cache_path_shape hr he hcf
+        have habs : isAbs cf = true := by rw [hv]; exact isAbs_absOf _
+        have hcl : clean cf = cf := by rw [hv]; exact clean_absOf hn
+        have hsb := cache_path_strictly_below hr he hcf
+        -- the etag file
+        obtain ⟨hne, _⟩ := etag_alphabet hdr e hetag
+        obtain ⟨hs, hd⟩ := etag_no_slash_no_dot hdr e hetag
+        obtain ⟨D, hnl, hdir, hp⟩ := cacheFileFromEtag_normal habs hne hs hd
+        rw [hef] at hp
+        injection hp with hp
+        have hD : NL D := fun x hx => hnl x (by simp [hx])
+        have hwd := (cache_dir_within_root habs hcl hsb).1
+        rw [hdir] at hwd
+        obtain ⟨k, hk⟩ : ∃ k, D = parts (clean root) ++ k := by
+          have := hwd.1
+          rw [parts_absOf hD] at this
+          obtain ⟨k, hk⟩ := this
+          exact ⟨k, hk.symm⟩
+        have hdiref : dir ef = absOf D := by rw [hp, dir_absOf hnl, List.dropLast_concat]
+        have htmpn := tmp_name_normal hrnd
+        have hnt : NL (D ++ [rnd ++ T ".tmp"]) := NL_append hD (NL_cons htmpn NL_nil)
+        refine ⟨absOf D, absOf (D ++ [rnd ++ T ".tmp"]), ef, ?_, hwd, ?_, ?_, ?_, hdiref⟩
+        · rw [← h, hdiref, createTempName_absOf hD]
+        · subst hk
+          rw [List.append_assoc] at hnt ⊢
+          exact strictlyBelow_absOf hnt (by simp)
+        · rw [hp]
+          subst hk
+          rw [List.append_assoc] at hnl ⊢
+          exact strictlyBelow_absOf hnl (by simp)
+        · rw [dir_absOf hnt, List.dropLast_concat]
+
+/-- and the transport does write for every accepted URL and every response that carries an `ETag`: the
+theorem above is not vacuous -/
+theorem cache_writes_defined {root path esc rnd v e : Text} {hdr : Option (List Text)}
+    (hr : isAbs root = true) (he : EscSafe esc) (hv : cachePathFromURL root path esc = some v)
+    (hetag : etagFromResponse hdr = some e) :
+    (cacheTransportWrites root path esc hdr rnd).isSome = true := by
+  obtain ⟨rest, hvv, hn, _⟩ := cache_path_shape hr he hv
+  have habs : isAbs v = true := by rw [hvv]; exact isAbs_absOf _
+  obtain ⟨p, hp, _⟩ := etag_file_within_dir hdr e v habs hetag
+  simp [cacheTransportWrites, hv, hetag, hp]
+
+example : cacheTransportWrites (T "/t/cache") (T "/os/x86_64/APKINDEX.tar.gz") (T "https%3A%2F%2Frepo.test%2Fos")
+    (some [T "\"../../x\""]) (T "123")
+    = some [T "/t/cache/https%3A%2F%2Frepo.test%2Fos/x86_64/APKINDEX",
+            T "/t/cache/https%3A%2F%2Frepo.test%2Fos/x86_64/APKINDEX/123.tmp",
+            T "/t/cache/https%3A%2F%2Frepo.test%2Fos/x86_64/APKINDEX/FYXC6LROF54A====.tar.gz"] := by decide
+
+
+/-! ## key files: `InitKeyring`, `fetchChainguardKeys`, `fetchAlpineKeys` -/
+
+/-- **keyfile_basename** (`InitKeyring`, for EVERY key file string): the file is `etc/apk/keys/<Base(element)>`
+when the base name is a component `Clean` keeps; otherwise (`Base` = `/`, `.` or `..`) the name is the keys
+directory itself or `etc/apk` — directories `InitKeyring` has just created, so `WriteFile` fails; no input
+leaves `etc/apk` -/
+theorem keyfile_basename (element : Text) :
+    parts (keyringFile element) = [T "etc", T "apk", T "keys", base element]
+    ∨ ((base element = slash ∨ base element = dot) ∧ keyringFile element = T "etc/apk/keys")
+    ∨ (base element = dotdot ∧ keyringFile element = T "etc/apk") := by
+  rcases keyringFile_cases element with ⟨hn, hs, h⟩ | h | h
+  · left
+    have := keysDir_join_parts ⟨hn, hs⟩
+    rw [keysDir_join_normal ⟨hn, hs⟩] at this
+    rw [h]; exact this
+  · exact Or.inr (Or.inl h)
+  · exact Or.inr (Or.inr h)
+
+/-- Full statement (**false** on the code): the keys discovered for a repository — `fetchAlpineKeys` (URL from
+`releases.json`, base name `PathUnescape`d *after* `Base`) and `fetchChainguardKeys` (`kid` from the JWKS) — are
+written inside `etc/apk/keys` -/
+def keyfile_within_keys_dir : Prop :=
+  (∀ u name, alpineKeyFile u = some name → parts keysDir <+: parts name)
+  ∧ (∀ kid, parts keysDir <+: parts (chainguardKeyFile kid))
+
+/-- the witnesses: `%2F` in the base name of an Alpine key URL / a `/` in a JWKS key id place the "key" anywhere
+in the image (`etc/passwd`); with one more `..` the name leaves the image root (and is then rejected by the
+repaired `dirFS`: `keyfile_host_confined`) -/
+theorem keyfile_escapes_keys_dir :
+    alpineKeyFile (T "https://alpinelinux.org/keys/..%2F..%2F..%2Fetc%2Fpasswd") = some (T "etc/passwd")
+    ∧ alpineKeyFile (T "https://alpinelinux.org/keys/..%2F..%2F..%2F..%2Fcanary") = some (T "../canary")
+    ∧ chainguardKeyFile (T "../../../usr/bin/x") = T "usr/bin/x.rsa.pub"
+    ∧ chainguardKeyFile (T "../../../../canary/pwn") = T "../canary/pwn.rsa.pub" := by decide
+
+theorem not_keyfile_within_keys_dir : ¬ keyfile_within_keys_dir := by
+  intro h
+  have := h.1 _ _ keyfile_escapes_keys_dir.1
+  revert this
+  decide
+
+/-- what does hold: a base name that is (after unescaping) one kept component without separator / a key id
+without separator is written directly inside `etc/apk/keys` -/
+theorem keyfile_within_keys_dir_partial :
+    (∀ u b, pathUnescape (base u) = some b → Normal b → '/' ∉ b →
+        alpineKeyFile u = some (T "etc/apk/keys" ++ '/' :: b)
+        ∧ parts (T "etc/apk/keys" ++ '/' :: b) = [T "etc", T "apk", T "keys", b])
+    ∧ (∀ kid, '/' ∉ kid → parts (chainguardKeyFile kid) = [T "etc", T "apk", T "keys", kid ++ T ".rsa.pub"]) := by
+  refine ⟨?_, ?_⟩
+  · intro u b hu hn hs
+    have hj := keysDir_join_normal ⟨hn, hs⟩
+    have hp := keysDir_join_parts ⟨hn, hs⟩
+    rw [hj] at hp
+    refine ⟨?_, hp⟩
+    unfold alpineKeyFile
+    rw [hu]
+    exact congrArg some hj
+  · intro kid hk
+    exact keysDir_join_parts (chainguard_name_normal hk)
+
+example : alpineKeyFile (T "https://alpinelinux.org/keys/alpine-devel%40lists.alpinelinux.org-4a6a0840.rsa.pub")
+    = some (T "etc/apk/keys/alpine-devel@lists.alpinelinux.org-4a6a0840.rsa.pub") := by decide
+
+/-- **the repaired `dirFS` alone confines all three key routes to the image root**: whatever the key file
+string, the key URL of `releases.json` or the JWKS key id is, the calls the code makes (`WriteFile`,
+`OpenFile(O_CREATE|O_WRONLY)`) hand only paths inside the root to `os.*` (instance of `dirfs_lexical`) -/
+theorem keyfile_host_confined (base : Text) (hb : isAbs base = true) (c : Call) (now : Int) (st : DState) :
+    (∀ element, ∀ p ∈ (dirStep base .writeFile { c with name := keyringFile element } now st).2.2, Within base p)
+    ∧ (∀ kid, ∀ p ∈ (dirStep base .writeFile { c with name := chainguardKeyFile kid } now st).2.2, Within base p)
+    ∧ (∀ u name, alpineKeyFile u = some name →
+        ∀ p ∈ (dirStep base .openFileCreate { c with name := name } now st).2.2, Within base p) :=
+  ⟨fun _ => dirfs_lexical base hb _ _ now st, fun _ => dirfs_lexical base hb _ _ now st,
+   fun _ _ _ => dirfs_lexical base hb _ _ now st⟩
+
+/-- … and a name that left the image root never reaches the disk -/
+theorem keyfile_dotdot_tainted :
+    (dirStep baseT .openFileCreate { name := T "../canary", flag := 0o101, perm := 0o644 } 0 { host := canaryHost }).2
+      = (.tainted, []) := by decide
+
+
+/-! ## the package cache directory (`cacheDirForPackage`) -/
+
+theorem within_absOf_of_prefix {root : Text} {D : List Name} (hD : NL D) (hp : parts (clean root) <+: D) :
+    Within root (absOf D) := by
+  rw [Within, parts_absOf hD]
+  exact ⟨hp, fun c hc => ⟨(hD c hc).1.2.2, (hD c hc).1.2.1⟩⟩
+
+/-- **pkg_cache_dir_within_root**: the directory `expandPackage` creates (`os.MkdirAll`) and fills for a package
+is the cache path without `.apk`, *not* cleaned again; for every URL path that is empty or absolute and every
+safe escape other than the literal `...apk` the kernel's lexical reading of it (`Clean`) lies within the cache
+root (possibly the root itself: a file name `...apk` directly below `root/esc`) -/
+theorem pkg_cache_dir_within_root {root path esc dd : Text} (hr : isAbs root = true) (he : EscSafe esc)
+    (hesc : esc ≠ T "...apk") (hpath : path = [] ∨ isAbs path = true)
+    (h : cacheDirForPackage root path esc = some dd) : Within root (clean dd) := by
+  unfold cacheDirForPackage at h
+  split at h
+  · cases h
+  · next p hp =>
+    split at h
+    · next hext =>
+      injection h with h
+      subst h
+      obtain ⟨rest, hv, hn, hc⟩ := cache_path_shape hr he hp
+      have hrest : rest ≠ [] := by rcases hc with e | e | e | e | ⟨_, e⟩ <;> simp [e]
+      obtain ⟨k, l, hk⟩ : ∃ k l, rest = k ++ [l] := by
+        rcases List.eq_nil_or_concat rest with e | ⟨k, l, e⟩
+        · exact absurd e hrest
+        · exact ⟨k, l, by rw [e, List.concat_eq_append]⟩
+      subst hk
+      rw [← List.append_assoc] at hv hn
+      have hl := hn l (by simp)
+      have hL : NL (parts (clean root) ++ k) := fun x hx => hn x (by
+        rcases List.mem_append.1 hx with e | e
+        · simp [e]
+        · simp [e])
+      -- the last component ends with `.apk`
+      have hseg : lastSeg p = l := by rw [hv, absOf_snoc]; exact lastSeg_append _ _ hl.2
+      obtain ⟨s0, hs0⟩ := ext_apk hext
+      rw [hseg] at hs0
+      have hs : '/' ∉ s0 := fun hm => hl.2 (by rw [hs0]; exact List.mem_append_left _ hm)
+      rw [hv, hs0, pkgdir_clean hL hs]
+      have hNL : NL (cleanStep true (parts (clean root) ++ k).reverse s0).reverse :=
+        NL_reverse (cleanStep_rooted_inv (fun c => '/' ∉ c) _ s0 (NL_reverse hL) hs)
+      refine within_absOf_of_prefix hNL ?_
+      by_cases h1 : s0 = [] ∨ s0 = dot
+      · rw [cleanStep_nop true _ h1, List.reverse_reverse]; exact List.prefix_append _ _
+      · by_cases h2 : s0 = dotdot
+        · subst h2
+          rw [cleanStep_pop (fun x hx => ((NL_reverse hL) x hx).1)]
+          have : (parts (clean root) ++ k).reverse.tail.reverse = (parts (clean root) ++ k).dropLast := by
+            rw [List.tail_reverse, List.reverse_reverse]
+          rw [this]
+          by_cases hkn : k = []
+          · -- the cache path is `root/<l>` with `l = "...apk"`: `l` is `esc` (excluded) or the directory was `..`
+            subst hkn
+            exfalso
+            have hl3 : l = T "...apk" := by rw [hs0]; rfl
+            rcases hc with e | e | e | e | ⟨e1, _⟩
+            · simp at e; exact hesc (by rw [← e, hl3])
+            · simp at e
+            · simp at e
+            · simp at e
+            · exact base_dir_ne_dotdot hpath e1
+          · rw [List.dropLast_append_of_ne_nil hkn]; exact List.prefix_append _ _
+        · have hne : s0 ≠ [] := fun e => h1 (Or.inl e)
+          have hnd : s0 ≠ dot := fun e => h1 (Or.inr e)
+          rw [cleanStep_push true _ ⟨hne, hnd, h2⟩]
+          simp only [List.reverse_cons, List.reverse_reverse, List.append_assoc]
+          exact List.prefix_append _ _
+    · cases h
+
+/-- both hypotheses are needed: with a relative URL path whose directory is `..` (not produced by `net/url` for
+a URL with a host, nor by `uri.New` for a local repository) the uncleaned `..` leaves the cache root -/
+theorem pkg_cache_dir_relative_escapes :
+    cacheDirForPackage (T "/t/cache") (T "../...apk") (T "https%3A%2F%2Frepo.test") = some (T "/t/cache/..")
+    ∧ cacheDirForPackage (T "/t/cache") (T "/") (T "...apk") = some (T "/t/cache/..") := by decide
+
+example : cacheDirForPackage (T "/t/cache") (T "/os/x86_64/p-1.0-r0.apk") (T "https%3A%2F%2Frepo.test%2Fos")
+    = some (T "/t/cache/https%3A%2F%2Frepo.test%2Fos/x86_64/p-1.0-r0") := by decide
+
+/-- a version `/../..` in an index entry (`Filename = name-version.apk` is appended to the repository URL and
+the URL path is not cleaned by `url.Parse`) makes the cache *root* the package's directory — within the root -/
+example : cacheDirForPackage (T "/t/cache") (T "/a-/../...apk") (T "https%3A%2F%2Frepo.test%2F")
+    = some (T "/t/cache/https%3A%2F%2Frepo.test%2F/..") := by decide
 
 /-! ## ties -/
 
@@ -430,6 +795,19 @@ theorem tie_keyring : Generated.keyringWritePath = "filepath.Join(\"etc\", \"apk
     ∧ Generated.chainguardKeyFile = "filepath.Join(keysDirPath, key.ID)"
     ∧ Generated.chainguardKeyName = "key.KeyID + \".rsa.pub\""
     ∧ Generated.keysDirPath = "etc/apk/keys" := by
+  refine ⟨by rfl, by rfl, by rfl, by rfl⟩
+theorem tie_alpine_key : Generated.alpineKeyBase = "filepath.Base(u)"
+    ∧ Generated.alpineKeyUnescape = "url.PathUnescape(basefilenameEscape)"
+    ∧ Generated.alpineKeyFile = "filepath.Join(keysDirPath, basefilename)"
+    ∧ Generated.alpineKeyOpenArg = "filename" := by
+  refine ⟨by rfl, by rfl, by rfl, by rfl⟩
+/-- the writing calls of the etag route of the caching transport, in the code's order (`cacheTransportWrites`) -/
+theorem tie_cache_write_calls :
+    Generated.cache_getCalls = ["cacheFileFromEtag", "os.Stat", "t.retrieveAndSaveFile", "etagFromResponse", "cacheFileFromEtag"]
+    ∧ Generated.cache_retrieveCalls = ["os.MkdirAll", "os.CreateTemp", "Point:index.tmp", "tmp.Close", "io.Copy",
+        "Point:index.body", "paths.AdvertiseCachedFile", "Point:index.adv"]
+    ∧ Generated.cache_advertiseCalls = ["os.Stat", "os.Remove", "os.Symlink"]
+    ∧ Generated.cache_indexTempPattern = "*.tmp" := by
   refine ⟨by rfl, by rfl, by rfl, by rfl⟩
 theorem tie_indexKeyNameCheck : Generated.indexKeyNameCheck = "keyName : strings.Contains(keyName, \"/\")"
     ∧ Generated.indexKeyCheckBeforeUse = true := by
